@@ -371,10 +371,61 @@ static void do_gone(void) {
   fflush(stdout);
 }
 
+/* ---- getpwuid() of the server user: what the extension's InitFileTransfer sees ---- */
+#include <pwd.h>
+struct passwd *__real_getpwuid(uid_t uid);
+static int pw_mode = 0;                      /* 0 real, 1 usable home = sandbox, 2 no entry, 3 unusable directory, 4 empty */
+static struct passwd fake_pw; static char fake_home[4300];
+struct passwd *__wrap_getpwuid(uid_t uid) {
+  if (pw_mode == 0) return __real_getpwuid(uid);
+  if (pw_mode == 2) return NULL;
+  memset(&fake_pw, 0, sizeof fake_pw);
+  fake_pw.pw_name = "verif"; fake_pw.pw_uid = uid;
+  if (pw_mode == 1) snprintf(fake_home, sizeof fake_home, "%s", sb);
+  else if (pw_mode == 3) snprintf(fake_home, sizeof fake_home, "/nonexistent-home-dir");
+  else fake_home[0] = 0;
+  fake_pw.pw_dir = fake_home;
+  return &fake_pw;
+}
+
 /* ---- TightVNC 1.3 extension: Tight security type handshake, then one request ---- */
 void rfbRegisterTightVNCFileTransferExtension(void);
 void EnableFileTransfer(rfbBool enable);
 int SetFtpRoot(char *path);
+char *GetFtpRoot(void);
+rfbBool IsFileTransferEnabled(void);
+static rfbScreenInfoPtr targs_screen = NULL;
+
+/* targs <ok|none|bad|empty> <arg-hex>...: the extension is registered, then rfbGetScreen processes the
+ * command line (cargs.c -> rfbTightProcessArg -> InitFileTransfer / SetFtpRoot / EnableFileTransfer) */
+static void do_targs(char *line) {
+  char *tok[64]; int n = 0, k, argc; char *sv = NULL, *t; char *argv[64];
+  for (t = strtok_r(line, " \n", &sv); t && n < 64; t = strtok_r(NULL, " \n", &sv)) tok[n++] = t;
+  puts("targs"); fflush(stdout);
+  if (n < 2) { puts("?? targs"); return; }
+  pw_mode = !strcmp(tok[1], "ok") ? 1 : !strcmp(tok[1], "none") ? 2 : !strcmp(tok[1], "bad") ? 3 : 4;
+  argv[0] = "vdrv_ft"; argc = 1;
+  for (k = 2; k < n; k++) { unsigned char *a; unhex(tok[k], &a);
+    /* "@" at the start stands for the sandbox path */
+    if (a[0] == '@') { char *f = (char *)malloc(strlen(sb) + strlen((char *)a) + 1); sprintf(f, "%s%s", sb, (char *)a + 1); argv[argc++] = f; }
+    else argv[argc++] = (char *)a; }
+  argv[argc] = NULL;
+  rfbRegisterTightVNCFileTransferExtension();
+  targs_screen = rfbGetScreen(&argc, argv, 16, 16, 8, 3, 4);
+  if (!targs_screen) { puts("?? noscreen"); return; }
+  targs_screen->frameBuffer = (char *)calloc(16 * 16, 4);
+  targs_screen->port = 0; targs_screen->ipv6port = 0; targs_screen->autoPort = FALSE;
+  targs_screen->httpPort = 0; targs_screen->http6Port = 0; targs_screen->httpDir = NULL; targs_screen->deferUpdateTime = 0;
+  rfbInitServer(targs_screen);
+  { const char *r = GetFtpRoot(); size_t sl = strlen(sb);
+    printf("tinit enabled=%d root=", IsFileTransferEnabled() ? 1 : 0);
+    /* printed relative to the sandbox when it lies in it */
+    if (!strncmp(r, sb, sl)) { putchar('@'); putchar(' '); put_hex((const unsigned char *)r + sl, strlen(r + sl)); }
+    else { putchar('='); putchar(' '); put_hex((const unsigned char *)r, strlen(r)); }
+    putchar('\n'); fflush(stdout); }
+  pw_mode = 0;
+}
+
 static void do_tight(char *line) {
   char *tok[64]; int n = 0, k; char *sv = NULL, *t; unsigned char *suf;
   char ftproot[5000]; unsigned char m[16]; int tpeer; vs_buf b = {0}; rfbClientPtr cl; rfbScreenInfoPtr s;
@@ -383,10 +434,14 @@ static void do_tight(char *line) {
   if (n < 6) { puts("?? tight"); return; }
   unhex(tok[3], &suf);
   snprintf(ftproot, sizeof ftproot, "%s%s", sb, (char *)suf);
-  rfbRegisterTightVNCFileTransferExtension();
-  s = vs_screen(16, 16, 4);
-  SetFtpRoot(ftproot);
-  EnableFileTransfer(atoi(tok[1]) ? TRUE : FALSE);
+  if (!strcmp(tok[1], "keep") && targs_screen) {
+    s = targs_screen;                        /* state as left by the command line (targs) */
+  } else {
+    rfbRegisterTightVNCFileTransferExtension();
+    s = vs_screen(16, 16, 4);
+    SetFtpRoot(ftproot);
+    EnableFileTransfer(atoi(tok[1]) ? TRUE : FALSE);
+  }
   cl = ft_connect(s, &tpeer);
   if (!cl) { puts("?? noclient"); return; }
   the_cl = cl; cl_sock = cl->sock;
@@ -441,6 +496,7 @@ static void run_case(char **lines, int n) {
     else if (!strncmp(lines[i], "chunk", 5)) do_chunk();
     else if (!strncmp(lines[i], "gone", 4)) do_gone();
     else if (!strncmp(lines[i], "tight ", 6)) do_tight(lines[i]);
+    else if (!strncmp(lines[i], "targs ", 6)) do_targs(lines[i]);
     else { printf("?? %s", lines[i]); fflush(stdout); }
   }
 }
